@@ -1,5 +1,6 @@
 //@include prelude.rs
 //@include from_u32.rs
+//@include ghost_stbits.rs
 //@include ghost_bw.rs
 
 //@item src/bytewise.rs const ROOT_STATE_IDX
